@@ -1,4 +1,5 @@
 import CuriesVerif.Model.Incremental
+import CuriesVerif.Model.Trie
 
 /-!
 # A uniform query interface over the converter model
@@ -79,6 +80,8 @@ def run (c : Conv) (q : Query) : Val :=
   | "get_prefixes", [] => .strs (c.getPrefixes q.strict)         -- `strict` carries include_synonyms
   | "get_uri_prefixes", [] => .strs (c.getUriPrefixes q.strict)
   | "delimiter", [] => .str c.delim
+  -- `converter.trie.longest_prefix_item(u)`, answered by the structural trie holding every assignment made so far
+  | "trie_lpi", [u] => (match (Trie.ofList c.trie.reverse).lpi u with | some (k, p) => .pair k p | Option.none => .none)
   | m, _ => .bad s!"unknown query {m}"
 
 end Conv
